@@ -90,6 +90,13 @@ def check(tier, seed):
                        "has_valid_extensions for random partial DFAs through the public Recognizer trait (with start "
                        "prefixes and pre-set bits), filter, greedy tokenisation, SimpleVob operation sequences; TLC compares "
                        "each result with the naive per-token / plain-set model (spec/Vocab.tla, Vob.tla)")
+    # the trie layout and walk as an algorithm (spec/TrieWalk.tla): model checked, replayed, trace-validated
+    from . import trie
+    trie.check(tier, seed, res)
+    res.cov["rule"] += ("; plus the flattened depth-first layout with pop counts and the branch-free walk as a TLA+ algorithm "
+                        "(TrieWalk.tla): exhaustive over small vocabularies (u1_models), TLC's finished behaviours replayed "
+                        "call by call into TokTrie (tlc_behaviours_replayed), and the recogniser calls of random larger "
+                        "vocabularies validated step by step (trie_walk_calls_validated)")
     # negative control
     lines = core.read_lines(os.path.join(wd, "trace0.ndjson"))
     for i, ln in enumerate(lines):
